@@ -19,6 +19,8 @@ def unhealthy(table, e):
     fn, p = e["fn"], e["p"]
     if fn in ("boom", "nomod", "notest") or e["stream"] not in table["data"]:
         return True
+    if fn == "gross" and len(p["fail"]) != 2:
+        return True          # rejected parameters (the library's message for this one contains literal braces)
     if fn == "gross" and p["susp"] and (min(p["susp"]) < min(p["fail"]) or max(p["susp"]) > max(p["fail"])):
         return True
     if fn == "dens" and not table["z"]:
@@ -63,6 +65,7 @@ POOL_F = [
     lambda r: {"stream": "b", "fn": "notest", "p": {"none": 0}},
     lambda r: {"stream": "c", "fn": "gross", "p": {"fail": [0, 4], "susp": []}},
     lambda r: {"stream": "b", "fn": "gross", "p": {"fail": [1, 2], "susp": [0, 4]}},
+    lambda r: {"stream": r.choice(["a", "b"]), "fn": "gross", "p": {"fail": [0, 4, 9], "susp": []}},
 ]
 
 
